@@ -9,6 +9,7 @@
   tied by the allocation hooks and by Miri, not by the model.
 -/
 import CstModel.Proofs.Conc
+import CstModel.Proofs.Teardown
 import CstModel.Generated.SourceFacts
 namespace Cst.C06
 
@@ -93,5 +94,38 @@ theorem comp_one_is_unsound :
           | none => none)
         | none => none)
      | none => none) = some (1, [1]) := by decide
+
+/-! ### the recursive teardown (`Model/Teardown`): what the one atomic `dec` step of `Model/Conc` stands for -/
+
+open Teardown in
+/-- **every installed block is released exactly once, children before parents**: the frees of a teardown are the
+    node blocks of the tree of installed elements in post-order; with one block per slot (C05) each occurs once -/
+theorem teardown_frees_each_once (ks : ITs) (hn : (nodesOfL ks).Nodup) :
+    (tearRoot ks).filterMap Ev.freed = nodesOfL ks ∧
+    ∀ s, ((tearRoot ks).filterMap Ev.freed).count s = if s ∈ nodesOfL ks then 1 else 0 :=
+  ⟨tearRoot_frees ks, tearRoot_frees_count ks hn⟩
+
+open Teardown in
+/-- **nothing is freed twice or dereferenced after it was freed** inside the teardown, the root block and the count
+    cell are released last, and nothing follows -/
+theorem teardown_safe (ks : ITs) (hn : (nodesOfL ks).Nodup) : safe [] (tearRoot ks) = true := tearRoot_safe ks hn
+
+open Teardown in
+/-- **the counter during the teardown**: its decrements are the `teardownDecs` of `Model/Conc` (two per installed
+    node, one per installed token, one for the root copy), and none of them sees 1 again: no second teardown -/
+theorem teardown_counter (ks : ITs) :
+    (tearRoot ks).count .dec = 2 * (nodesOfL ks).length + nToksL ks + 1 ∧ ∀ p, p ∈ prevs 0 (tearRoot ks) → p ≠ 1 :=
+  ⟨tearRoot_decs ks, fun p h => no_second_teardown ks p h⟩
+
+/-- the shape the model of the teardown was read off from is the shape of the source: all slots in order, under the
+    slot's write lock, the child's sub-tree first, then the slot is cleared, then the child's block is released; the root
+    block and the count cell after everything else -/
+theorem teardown_shape_facts : SourceFacts.teardownLoopsAllSlots = true ∧ SourceFacts.teardownChildrenFirst = true ∧
+    SourceFacts.teardownRootLast = true ∧ SourceFacts.teardownUnderWriteLock = true := by decide
+
+open Teardown in
+/-- non-vacuity: a tree with a nested node, an empty slot and tokens -/
+example : let ks := ITs.full (.node 0 (.full .tok (.skip (.full (.node 1 .nil) .nil)))) (.full .tok .nil)
+    (nodesOfL ks).Nodup ∧ (tearRoot ks).filterMap Ev.freed = [1, 0] ∧ (tearRoot ks).count .dec = 7 := by decide
 
 end Cst.C06
